@@ -10,7 +10,6 @@ CONSTANTS
   MaxSectors = 5
   MaxQueries = 0
 INVARIANT TypeOK
-INVARIANT Lookup_FindsExactlyTheDeclared
 INVARIANT Zone_PartitionByCurrency
 INVARIANT Region_DefaultCurrency
 INVARIANT FullCode_Rule
